@@ -207,6 +207,16 @@ def check_modules(R, results, mlref, rs, mismatches, label):
         if d.startswith('WF-BUT') or not d.startswith('WF'):
             mismatches.append((label, i, 'module_ok vs diagnosis', d, ''))
         nodes = sum(r.get('stats', {}).values())
+        # (0) oracle: the optimising pipeline (counting -> finalize -> memoizing serialiser) must serialise exactly the
+        #     modules the plain serialiser serialises (finalize() budgets its suggestions by the free memory slots)
+        for which in ('real', 'twin'):
+            a, b = r[which]['plain'], r[which]['opt']
+            if a.get('ok') != b.get('ok'):
+                bad = b if a.get('ok') else a
+                R.violation(f"optimize-setting-changes-toolkit-verdict:{'opt' if a.get('ok') else 'plain'}-refuses:{bad.get('exc')}",
+                            'ProofExp.serialize succeeds with one optimize setting and raises with the other',
+                            {'mod': r.get('mod'), 'which': which, 'plain': {k: v for k, v in a.items() if k in ('ok', 'exc', 'msg')},
+                             'opt': {k: v for k, v in b.items() if k in ('ok', 'exc', 'msg')}, 'how': './check C02 --replay <this file>'})
         for opt in ('plain', 'opt'):
             tw, re_ = r['twin'][opt], r['real'][opt]
             key = (r['model']['proofs'], r['model']['axs'], opt)
@@ -350,6 +360,9 @@ def run(tier, seed):
         for r in corp:
             if 'runner_error' in r:
                 mismatches.append(('corpus', 0, 'runner', r['runner_error'][-800:], ''))
+        # modules with memory pressure near the 256 slots (many axioms + repeated sub-patterns)
+        gen += c08.runner_batch([{'cmd': 'pressure_modules', 'seed': f'{seed}:{CID}:pressure:{j}', 'n': 2}
+                                 for j in range(1 if tier == 'quick' else 8)], timeout=3000)
         for g in gen:
             if isinstance(g, dict):
                 mismatches.append(('gen', 0, 'runner', g.get('runner_error', '')[-800:], ''))
@@ -398,7 +411,11 @@ def replay(path):
     if mod is None:
         print(json.dumps(d, indent=1)[:3000])
         return 0
-    r = c08.runner_batch([{'cmd': 'module', 'mod': mod}])[0]
+    if 'regenerate' in mod:
+        out = c08.runner_batch([mod['regenerate']])[0]
+        r = [x for x in out if x['mod']['proofs'] == mod['proofs']][0]
+    else:
+        r = c08.runner_batch([{'cmd': 'module', 'mod': mod}])[0]
     print('module:', json.dumps(mod)[:1500])
     if not r.get('built'):
         print('toolkit could not build the module:', r)
